@@ -104,7 +104,9 @@ def analysis_c(res, rule):
             v = vals.get(nm)
             got = tuple(v.f) if isinstance(v, Sz) else (tuple(v.axes[0]) if isinstance(v, Arr) and v.axes else None)
             checked[nm] = got
-            if got is None or (got != f and not unknownish(got)):
+            if got is None:
+                continue              # the layout of this argument was not followed: nothing claimed
+            if got != f and not unknownish(got):
                 d.report("contract-args", n, f"get_src_dict assumes `{nm}` enumerates {'*'.join(f)} (path index major, pixel minor) but is handed "
                          f"{'*'.join(got) if got else repr(v)}")
         return Const({"position": Arr((GMP, LIT(3))), "observers": Arr((GMP, LIT(3))), "orientation": RotL(GMP), "*": Arr((GMP, ("?",)))})
